@@ -143,7 +143,10 @@ var fnTable = map[string]func(a *fnArgs, o *ob){
 		f := sipsp.URICmpFlags(a.Flags)
 		o.bool("eq", sipsp.URICmp(&u1, b1, &u2, b2, f))
 		o.bool("eqshort", sipsp.URICmpShort(&u1, b1, &u2, b2, f))
+		// the structures handed to URIParseCmp are RE-USED ones (as a caller's would be), not zero values
 		var r1, r2 sipsp.PsipURI
+		sipsp.ParseURI([]byte("sips:dirty:pw@[::1]:5061;p=1;q?h=v"), &r1)
+		r2 = r1
 		eq, e, which := sipsp.URIParseCmp(b1, b2, f, &r1, &r2)
 		o.bool("peq", eq)
 		o.str("perr", uriErrName(e))
